@@ -1,4 +1,4 @@
-from rope.base import codeanalyze
+from rope.base import codeanalyze, simplify
 
 
 def get_indents(lines, lineno):
@@ -7,9 +7,8 @@ def get_indents(lines, lineno):
 
 def find_minimum_indents(source_code):
     result = 80
-    lines = source_code.split("\n")
-    for line in lines:
-        if line.strip() == "":
+    for line, in_string in lines_and_strings(source_code):
+        if line.strip() == "" or in_string:
             continue
         result = min(result, codeanalyze.count_line_indents(line))
     return result
@@ -29,12 +28,35 @@ def split_lines(source_code, keepends=False):
     return lines
 
 
+def lines_and_strings(source_code, keepends=False):
+    """Yield `(line, in_string)` for the lines of `source_code`
+
+    `in_string` tells that the line starts inside a string literal: its
+    leading blanks are data, not indentation.
+    """
+    regions = iter(simplify.ignored_regions(source_code))
+    region = next(regions, None)
+    offset = 0
+    for line in split_lines(source_code, True):
+        while region is not None and region[1] <= offset:
+            region = next(regions, None)
+        in_string = (
+            region is not None
+            and region[0] < offset
+            and source_code[region[0]] != "#"
+        )
+        offset += len(line)
+        yield (line if keepends else line.rstrip("\n")), in_string
+
+
 def indent_lines(source_code, amount):
     if amount == 0:
         return source_code
-    lines = split_lines(source_code, True)
     result = []
-    for line in lines:
+    for line, in_string in lines_and_strings(source_code, True):
+        if in_string:
+            result.append(line)
+            continue
         if line.strip() == "":
             result.append("\n")
             continue
